@@ -83,8 +83,9 @@ func (h *vHS) dump(x int) string {
 		}
 		return 0
 	}
-	return fmt.Sprintf("st=%d pil=%d pfwd=%d pifwd=%d sz=%d uil=%d ufwd=%d uifwd=%d", a.getState(), b(a.peerInterleaving), b(a.peerForwardTSN),
-		b(a.peerIForwardTSN), b(a.sendZeroChecksum), b(a.useInterleaving), b(a.useForwardTSN), b(a.useIForwardTSN))
+	return fmt.Sprintf("st=%d pil=%d pfwd=%d pifwd=%d sz=%d uil=%d ufwd=%d uifwd=%d t1i=%d t1c=%d", a.getState(), b(a.peerInterleaving), b(a.peerForwardTSN),
+		b(a.peerIForwardTSN), b(a.sendZeroChecksum), b(a.useInterleaving), b(a.useForwardTSN), b(a.useIForwardTSN),
+		b(a.t1Init.isRunning()), b(a.t1Cookie.isRunning()))
 }
 
 func (h *vHS) collect(x int) string {
@@ -160,6 +161,7 @@ func (h *vHS) exec(op []string) {
 		a.storedInit = init
 		_ = a.sendInit()
 		a.setState(cookieWait)
+		a.t1Init.start(a.rtoMgr.getRTO()) // as initClient does (the timer never fires by itself here: virtual time does not advance)
 		a.lock.Unlock()
 		out := h.collect(x)
 		h.l.line(line, out+" | "+h.dump(x))
